@@ -39,14 +39,21 @@ func (p *Prog) inlineOverlay() (map[string][]byte, []string) {
 	var jobs []inlineJob
 	newFns := map[*Func]bool{}
 	for _, f := range p.Funcs {
-		if f.Decl == nil || f.Obj == nil || knownFuncs[f.Name] || f.Obj.Exported() {
+		if f.Decl == nil || f.Obj == nil || knownFuncs[f.Name] {
+			continue
+		}
+		// a new exported function is treated like a new private helper when the
+		// module itself calls it (the old entry point delegating to its new,
+		// more general variant: Dial -> DialContext, Start -> StartContext); one
+		// nobody in the module calls is a new entry point and stays as it is
+		if f.Obj.Exported() && len(ci.callers[f]) == 0 {
 			continue
 		}
 		if strings.HasSuffix(p.Fset.Position(f.Body.Pos()).Filename, "testing.go") {
 			continue
 		}
 		sig := f.Obj.Type().(*types.Signature)
-		if sig.Variadic() || sig.TypeParams() != nil {
+		if sig.TypeParams() != nil {
 			continue
 		}
 		recursive := false
@@ -372,6 +379,9 @@ func (p *Prog) inlineOneImpl(fset *token.FileSet, file *ast.File, off int, j inl
 		return false
 	}
 	parent := path[len(path)-2]
+	if p.collapseDelegation(file, path, call, j) {
+		return true
+	}
 	// x := A && H(...)  ->  x := A; if x { x = H(...) }   (same evaluation order)
 	if be, ok := parent.(*ast.BinaryExpr); ok && be.Op == token.LAND && ast.Unparen(be.Y) == ast.Expr(call) && len(path) >= 4 {
 		if as, ok := path[len(path)-3].(*ast.AssignStmt); ok && len(as.Lhs) == 1 && len(as.Rhs) == 1 && as.Rhs[0] == ast.Expr(be) {
@@ -729,6 +739,14 @@ direct:
 			rn = callee.Decl.Recv.List[0].Names[0]
 		}
 		addBind(rn, se.X)
+	}
+	// a variadic helper is inlined only where the call spreads a slice into the
+	// variadic parameter (f(a, xs...)): the parameter is then just that slice
+	if csig, ok := callee.Obj.Type().(*types.Signature); ok && csig.Variadic() {
+		if !call.Ellipsis.IsValid() || len(call.Args) != csig.Params().Len() {
+			inlineWhy = "a variadic helper is called without spreading a slice into its variadic parameter"
+			return false
+		}
 	}
 	ai := 0
 	for _, fd := range callee.Decl.Type.Params.List {
@@ -1903,4 +1921,163 @@ func isBareCallStmt(n ast.Node, name string) bool {
 	}
 	id, ok := c3.Fun.(*ast.Ident)
 	return ok && id.Name == name
+}
+
+// collapseDelegation handles the wrapper whose whole body is one delegation,
+//
+//	func (c *T) Old(a A) (R, error) { return c.New(x, a) }      (or: c.New(x, a) with no results)
+//
+// where New is a function the reference tree does not have, declared in the
+// same file with the same receiver name. The body of New becomes the body of
+// Old: Old takes over New's result list (names included - deferred closures of
+// the body may read them), New's parameters become locals bound to the
+// arguments in front of the body, and the statements are moved as they are, so
+// defers, returns and labels keep their meaning (the function boundary is the
+// same). This is the only inlining form that accepts arbitrary defers.
+func (p *Prog) collapseDelegation(file *ast.File, path []ast.Node, call *ast.CallExpr, j inlineJob) bool {
+	callee := j.callee
+	if callee.Decl == nil || j.caller.Decl == nil || len(path) < 4 {
+		return false
+	}
+	// the statement that holds the call is the only statement of the caller
+	var callerFD *ast.FuncDecl
+	for _, n := range path {
+		if fd, ok := n.(*ast.FuncDecl); ok {
+			callerFD = fd
+		}
+	}
+	if callerFD == nil || callerFD.Body == nil || len(callerFD.Body.List) != 1 {
+		return false
+	}
+	switch st := callerFD.Body.List[0].(type) {
+	case *ast.ReturnStmt:
+		if len(st.Results) != 1 || ast.Unparen(st.Results[0]) != ast.Expr(call) {
+			return false
+		}
+	case *ast.ExprStmt:
+		if ast.Unparen(st.X) != ast.Expr(call) {
+			return false
+		}
+		if callee.Decl.Type.Results != nil && len(callee.Decl.Type.Results.List) > 0 {
+			return false
+		}
+	default:
+		return false
+	}
+	// the callee's declaration in the same (re-parsed) file
+	var calleeFD *ast.FuncDecl
+	for _, d := range file.Decls {
+		fd, ok := d.(*ast.FuncDecl)
+		if !ok || fd.Name.Name != callee.Decl.Name.Name || fd.Body == nil {
+			continue
+		}
+		if (fd.Recv == nil) != (callee.Decl.Recv == nil) {
+			continue
+		}
+		if fd.Recv != nil && recvTypeName(fd) != recvTypeName(callee.Decl) {
+			continue
+		}
+		calleeFD = fd
+	}
+	if calleeFD == nil || calleeFD == callerFD {
+		return false
+	}
+	// result types agree
+	csig, ok1 := callee.Obj.Type().(*types.Signature)
+	rsig, ok2 := j.caller.Obj.Type().(*types.Signature)
+	if !ok1 || !ok2 || csig.Results().Len() != rsig.Results().Len() {
+		return false
+	}
+	for i := 0; i < csig.Results().Len(); i++ {
+		if !types.Identical(csig.Results().At(i).Type(), rsig.Results().At(i).Type()) {
+			return false
+		}
+	}
+	// receiver: same name, called on the caller's receiver
+	recvName := func(fd *ast.FuncDecl) string {
+		if fd.Recv == nil || len(fd.Recv.List) != 1 || len(fd.Recv.List[0].Names) != 1 {
+			return ""
+		}
+		return fd.Recv.List[0].Names[0].Name
+	}
+	if calleeFD.Recv != nil {
+		se, ok := ast.Unparen(call.Fun).(*ast.SelectorExpr)
+		if !ok {
+			return false
+		}
+		x, ok := se.X.(*ast.Ident)
+		if !ok || callerFD.Recv == nil || x.Name != recvName(callerFD) || recvName(calleeFD) != x.Name || x.Name == "" {
+			return false
+		}
+	}
+	// parameters become locals; every argument is pure
+	callerParams := map[string]bool{}
+	if callerFD.Type.Params != nil {
+		for _, fd := range callerFD.Type.Params.List {
+			for _, nm := range fd.Names {
+				callerParams[nm.Name] = true
+			}
+		}
+	}
+	var prologue []ast.Stmt
+	ai := 0
+	if calleeFD.Type.Params != nil {
+		for _, fd := range calleeFD.Type.Params.List {
+			if len(fd.Names) == 0 {
+				ai++
+				continue
+			}
+			for _, nm := range fd.Names {
+				if ai >= len(call.Args) {
+					return false
+				}
+				arg := call.Args[ai]
+				ai++
+				if call.Ellipsis.IsValid() && ai == len(call.Args) {
+					// xs... spread into the variadic parameter: it is that slice
+				} else if _, isVar := fd.Type.(*ast.Ellipsis); isVar {
+					return false
+				}
+				if !isPureExpr(arg) && !isBackgroundCtx(arg) {
+					return false
+				}
+				if id, isID := ast.Unparen(arg).(*ast.Ident); isID && id.Name == nm.Name {
+					continue // same name: the caller's parameter is the callee's
+				}
+				if nm.Name == "_" {
+					continue
+				}
+				if callerParams[nm.Name] {
+					return false // the name means something else in the caller
+				}
+				typ := fd.Type
+				if el, isVar := typ.(*ast.Ellipsis); isVar {
+					typ = &ast.ArrayType{Elt: el.Elt}
+				}
+				prologue = append(prologue,
+					&ast.DeclStmt{Decl: &ast.GenDecl{Tok: token.VAR, Specs: []ast.Spec{&ast.ValueSpec{Names: []*ast.Ident{ast.NewIdent(nm.Name)}, Type: typ, Values: []ast.Expr{arg}}}}},
+					&ast.AssignStmt{Lhs: []ast.Expr{ast.NewIdent("_")}, Tok: token.ASSIGN, Rhs: []ast.Expr{ast.NewIdent(nm.Name)}})
+			}
+		}
+	}
+	if ai != len(call.Args) {
+		return false
+	}
+	callerFD.Type.Results = calleeFD.Type.Results
+	callerFD.Body = &ast.BlockStmt{Lbrace: callerFD.Body.Lbrace, List: append(prologue, calleeFD.Body.List...), Rbrace: callerFD.Body.Rbrace}
+	return true
+}
+
+// isBackgroundCtx: context.Background() / context.TODO().
+func isBackgroundCtx(e ast.Expr) bool {
+	call, ok := ast.Unparen(e).(*ast.CallExpr)
+	if !ok || len(call.Args) != 0 {
+		return false
+	}
+	se, ok := call.Fun.(*ast.SelectorExpr)
+	if !ok || (se.Sel.Name != "Background" && se.Sel.Name != "TODO") {
+		return false
+	}
+	pk, ok := se.X.(*ast.Ident)
+	return ok && pk.Name == "context" && pk.Obj == nil
 }
